@@ -81,10 +81,23 @@ def plan(tier):
         jobs.append({"part": "read", "examples": per})
         jobs.append({"part": "write", "examples": per})
     jobs.append({"part": "tag", "examples": 2000 if tier == "quick" else 50000})
+    for _ in range(4 if tier == "quick" else 16):
+        jobs.append({"part": "wrap", "examples": 40 if tier == "quick" else 400})
     return jobs
 
 
 def run_job(ctx, job):
+    if job["part"] == "wrap":
+        # long-lived connection: the same histories as C17 (counter phase placed so that the 16-bit wrap falls inside them);
+        # read / write must keep answering with Tags there
+        from . import c17
+
+        def check_wrap(case):
+            discs, nt, cls = c17.check_history(case, strict=True)
+            return [d for d in discs if d.bucket.startswith("strict.")], True, ["wrap-history"]
+
+        hyp_search(ctx, "wrap", c17.histories(), check_wrap, job["examples"], sample_of=c17.sample_of)
+        return
     if job["part"] == "tag":
         hyp_search(ctx, "tag", st.tuples(st.text(max_size=4), VALUES, st.one_of(st.none(), st.text(max_size=4)), ERRORS),
                    lambda f: (check_tag(f), True, ["truthiness"]), job["examples"])
@@ -95,4 +108,7 @@ def run_job(ctx, job):
 def replay(ctx, kind, case):
     if kind == "tag":
         return check_tag(case)
+    if kind == "wrap":
+        from . import c17
+        return [d for d in c17.check_history(case, strict=True)[0] if d.bucket.startswith("strict.")]
     return check_case(case)[0]
